@@ -115,21 +115,21 @@ def rule_wrap(ctx):
         if d_.get('kind') == 'VarDecl':
             lv_ = d_['name']
     anchor(lv_ is not None, 'loop variable of the open-boundary loop')
-    flags = set()
-    for ifs in walk(loop):
-        if ifs.get('kind') == 'IfStmt':
-            c = render(ifs['inner'][0]).replace(' ', '')
-            m = re.match(r'^\((?:r\.)?particles\[(\w+)\]\.([xyz])([<>])\(?(-?)\(?(?:r\.)?boxsize\.([xyz])/2(?:\.0?)?\)*$', c)
-            if m and m.group(1) == lv_:
-                n += 1
-                _, comp, op, neg, bcomp = m.groups()
-                asg = [(render(e['inner'][0]), render(e['inner'][1])) for e in walk(ifs['inner'][1]) if is_assign(e) and strip(e['inner'][0]).get('kind') == 'DeclRefExpr']
-                sets = [v_ for _, v_ in asg]
-                flags |= {k_ for k_, _ in asg}
-                where = 'src/boundary.c:%s reb_boundary_check (OPEN)' % line_of(ifs)
-                if comp != bcomp or (op == '>') == bool(neg) or sets != ['1'] or len(flags) != 1:
-                    ctx.report('R15.1', 'open:%s%s' % (comp, op), where, 'the outside test %s does not mark exactly the particles beyond the %s face of the box in %s' % (c, 'upper' if op == '>' else 'lower', comp))
-                tests.add((comp, op))
+    # the six outside tests: comparisons of a coordinate of particle i with +-boxsize/2 anywhere in the loop (separate ifs,
+    # one || chain, a flag initialiser ...). Each must pair the coordinate with its own box length and the right face.
+    for cmp_ in walk(loop):
+        if cmp_.get('kind') != 'BinaryOperator' or cmp_.get('opcode') not in ('<', '>'):
+            continue
+        c = render(cmp_).replace(' ', '')
+        m = re.match(r'^\((?:r\.)?particles\[(\w+)\]\.([xyz])([<>])\(?(-?)\(?(?:r\.)?boxsize\.([xyz])/2(?:\.0?)?\)*$', c)
+        if m and m.group(1) == lv_:
+            n += 1
+            _, comp, op, neg, bcomp = m.groups()
+            where = 'src/boundary.c:%s reb_boundary_check (OPEN)' % line_of(cmp_)
+            if comp != bcomp or (op == '>') == bool(neg):
+                ctx.report('R15.1', 'open:%s%s' % (comp, op), where, 'the outside test %s does not mark exactly the particles beyond the %s face of the box in %s' % (c, 'upper' if op == '>' else 'lower', comp))
+            tests.add((comp, op))
+    anchor(any(x.get('kind') == 'CallExpr' and callee_name(x) == 'reb_simulation_remove_particle' for x in walk(loop)), 'open boundary removes particles with reb_simulation_remove_particle')
     for comp in AX:
         for op in '<>':
             if (comp, op) not in tests:
@@ -146,17 +146,19 @@ def rule_wrap(ctx):
         ctx.report('R15.1', 'open:recheck', where, 'the loop runs backwards (%s) and still steps i back after a removal: slot i-1 is skipped and a particle outside the box survives the step' % inc)
     if ascending and comp_stmts:
         # the compensation only applies when the particle is removed at once (no tree)
-        from .c08 import ancestors_conditions
-        cs = ancestors_conditions(fn).get(id(comp_stmts[0]), [])
-        if not any('r.tree_root==' in c.replace(' ', '') for c in cs):
+        from . import pathcond
+        cs = pathcond.conditions(fn).get(id(comp_stmts[0]), [])
+        if not any(c.replace('(', '').replace(')', '') in ('!r.tree_root', 'r.tree_root==0', 'r.tree_root==void*0') for c in cs):
             ctx.report('R15.1', 'open:recheck:tree', where, 'the index compensation is applied even when a tree is in use (the particle is only flagged then)')
     # reb_boundary_particle_is_in_box tests the same six faces
     f2 = tu.func('reb_boundary_particle_is_in_box')
     faces = set()
-    for ifs in walk(cfront.body(f2)):
-        if ifs.get('kind') == 'IfStmt':
-            c = render(ifs['inner'][0]).replace(' ', '')
-            m = re.match(r'^\(p\.([xyz])([<>])\(?(-?)\(?r\.boxsize\.([xyz])/2(?:\.0?)?\)*$', c)
+    pname_ = [p_['name'] for p_ in cfront.params(f2) if 'reb_particle' in qtype(p_)]
+    anchor(pname_, 'particle parameter of reb_boundary_particle_is_in_box')
+    for cmp_ in walk(cfront.body(f2)):
+        if cmp_.get('kind') == 'BinaryOperator' and cmp_.get('opcode') in ('<', '>'):
+            c = render(cmp_).replace(' ', '')
+            m = re.match(r'^\(%s\.([xyz])([<>])\(?(-?)\(?r\.boxsize\.([xyz])/2(?:\.0?)?\)*$' % re.escape(pname_[0]), c)
             if m and m.group(1) == m.group(4) and (m.group(2) == '>') != bool(m.group(3)):
                 faces.add((m.group(1), m.group(2)))
     n += 1
@@ -277,7 +279,9 @@ def rule_tree_geometry(ctx):
         if d.get('kind') == 'VarDecl' and 'init' in d and d['name'] in ('i', 'j', 'k'):
             init = [c for c in d.get('inner', []) if c.get('kind') not in ('FullComment',)]
             if init and 'floor' in render(init[-1]):
-                tl[d['name']] = render(init[-1]).replace(' ', '')
+                from . import extents as _ext
+                L_ = {k_: v_ for k_, v_ in _ext.lets(f).items() if k_ not in ('i', 'j', 'k', 'p', 'pt', 'node', 'particles')}
+                tl[d['name']] = _ext.resolve(render(init[-1]), L_).replace(' ', '')
     for v in ('i', 'j', 'k'):
         n += 1
         a = lets[v].replace('pt.', 'p.')
